@@ -575,12 +575,12 @@ impl Prop for P {
             vec(vec(interval_strategy(1e6), 8..=8), 1..=3),
             0u8..=20,
         )
-            .prop_map(|(dag, points, boxes, slice_len)| Case {
+            .prop_map(|(dag, points, boxes, slice_len)| { let points = gens::coincide(&dag, points); Case {
                 dag,
                 points,
                 boxes,
                 slice_len,
-            })
+            }})
             .boxed()
     }
 
